@@ -57,6 +57,16 @@ def gen_cases(tier):
                     add(("core", True, (op, w, ("a", "c"))))
                     add(("core", True, (op, ("a", "c"), w)))
     add(("ext", True, ("**", ("+", ("a", "a"), ("a", "b")), 1)))
+    # call atoms written with keyword arguments: equal texts are one factor, other keyword values another one
+    atoms_kw = ["a", "f(x, p=2)", "f(x, p=3)", "f(x, 2)"]
+    for n in range(1, 4):
+        for t in A.trees(n, atoms_kw, OPS):
+            add(("core", True, t))
+    for g in ("g", "f(h, p=2)"):
+        for e1 in ("f(x, p=2)", "f(x, p=3)"):
+            for e2 in ("f(x, p=2)", "f(x, p=3)", "x"):
+                add(("core", True, ("+", ("|", ("a", e1), ("a", g)), ("|", ("a", e2), ("a", g)))))
+                add(("core", True, ("-", ("+", ("|", ("a", e1), ("a", g)), ("|", ("a", e2), ("a", g))), ("|", ("a", e1), ("a", g)))))
     # flat (unparenthesised) operator chains: the documented precedence and left-associativity decide the tree
     import itertools as _it
     from fmc.refmodel import grammar as _G
